@@ -133,6 +133,13 @@ func buildC16(kind string, opt bool) *c16World {
 		rw.WriteHeader(200)
 	}
 	r.Handle("/nest/{id}", nh, nil, "GET")
+	// /hd/{id}: a handler with its own status, header and body, asked for with HEAD after every fault
+	hd := w.env.NewHnd(mon.KRoute, "/hd/{id}")
+	hd.Prog = &mon.Prog{Steps: []mon.Step{{Op: "set", Key: "X-Later", Val: "yes"}, {Op: "write", N: 5}}}
+	r.Handle("/hd/{id}", hd, nil, "GET")
+	hs := w.env.NewHnd(mon.KRoute, "/hs/{id}")
+	hs.Prog = &mon.Prog{Steps: []mon.Step{{Op: "set", Key: "X-Later", Val: "yes"}, {Op: "status", Code: 201}, {Op: "write", N: 5}}}
+	r.Handle("/hs/{id}", hs, nil, "GET")
 	return w
 }
 
@@ -145,6 +152,7 @@ type c16Site struct {
 	layer  string
 	after  bool
 	inCall bool
+	writes bool // the user function sets a header, sends a status and body bytes before it panics
 }
 
 func c16Sites() []c16Site {
@@ -153,6 +161,8 @@ func c16Sites() []c16Site {
 		{name: "route handler GET", method: "GET", path: "/p/7", target: route},
 		{name: "route handler POST", method: "POST", path: "/p/7", target: route},
 		{name: "automatic HEAD", method: "HEAD", path: "/p/7", target: route},
+		{name: "route handler GET after writing", method: "GET", path: "/p/7", target: route, writes: true},
+		{name: "automatic HEAD after writing", method: "HEAD", path: "/p/7", target: route, writes: true},
 		{name: "OPTIONS handler", method: "OPTIONS", path: "/p/7", target: func(w *c16World) *mon.Hnd { return w.optH }},
 		{name: "405 handler", method: "PUT", path: "/p/7", target: func(w *c16World) *mon.Hnd { return w.m405 }},
 		{name: "404 handler", method: "GET", path: "/zzz", target: func(w *c16World) *mon.Hnd { return w.nf }},
@@ -220,6 +230,15 @@ func (w *c16World) inject(c *Ctx, site c16Site, pv panicValue) {
 			}
 		}
 		armed.Panic = spec
+		if site.writes {
+			armed.Panic = nil
+			armed.Run = func(rw http.ResponseWriter, _ *http.Request, _ *mon.Hnd) {
+				rw.Header().Set("X-Poison", "1")
+				rw.WriteHeader(202)
+				rw.Write([]byte("abc"))
+				raise()
+			}
+		}
 	}
 	wr, wg := w.routerRec.calls, w.groupRec.calls
 	o := mon.Do(w.serve, mon.Req{Method: site.method, Path: path})
@@ -286,6 +305,15 @@ func (w *c16World) inject(c *Ctx, site c16Site, pv panicValue) {
 	n := mon.Do(w.serve, mon.Req{Method: "GET", Path: w.prefix + "/p/" + id})
 	if n.Panicked || n.H == nil || n.H.Base != w.routeH || n.Status != 200 || len(n.Params) != 1 || n.Params["id"] != id {
 		c.Violate("a normal request after the panic is not served normally", map[string]any{"after": det, "observed": obsBrief(n)})
+	}
+	// ... also through the automatic HEAD: status, header and Content-Length of that handler alone, no body
+	n = mon.Do(w.serve, mon.Req{Method: "HEAD", Path: w.prefix + "/hd/9"})
+	if n.Panicked || n.Status != 200 || n.Header.Get("X-Later") != "yes" || n.Header.Get("Content-Length") != "5" || len(n.Body) != 0 {
+		c.Violate("a HEAD request after the panic is not answered like the handler's GET (status 200, X-Later, Content-Length 5 for the implicit header, no body)", map[string]any{"after": det, "observed": obsBrief(n), "content_length": n.Header.Get("Content-Length"), "x_later": n.Header.Get("X-Later")})
+	}
+	n = mon.Do(w.serve, mon.Req{Method: "HEAD", Path: w.prefix + "/hs/9"})
+	if n.Panicked || n.Status != 201 || n.Header.Get("X-Later") != "yes" || len(n.Body) != 0 {
+		c.Violate("a HEAD request after the panic is not answered like the handler's GET (status 201, X-Later, no body)", map[string]any{"after": det, "observed": obsBrief(n), "x_later": n.Header.Get("X-Later")})
 	}
 	n = mon.Do(w.serve, mon.Req{Method: "GET", Path: w.prefix + "/not/there"})
 	if n.Panicked || n.Status != 404 || len(n.Params) != 0 {
@@ -355,7 +383,7 @@ func init() {
 		Cases:      func(t string) int { return map[string]int{"quick": 1000, "thorough": 40000}[t] },
 		Run:        runC16,
 		Exhaustive: true,
-		Rule: "every case enumerates the complete product: 16 panic sites (route handler per method, automatic HEAD, OPTIONS, 405, 404, TRACE, each middleware layer Use/prefix/registration before and after next, CallFunc, group not-found, CallFunc for group not-found) x 5 panic values (string, error, struct, genuine runtime.Error, http.ErrAbortHandler) x 3 containers (Router, Group+Add-ed router with its own recovery, Group.New router inheriting the group's option) x recovery on/off; after every fault a normal request and a 404 are checked; then a random sequence of 60 faulty/normal requests; " +
+		Rule: "every case enumerates the complete product: 18 panic sites (route handler per method, automatic HEAD, GET and HEAD handlers that write a header, a status and body bytes before panicking, OPTIONS, 405, 404, TRACE, each middleware layer Use/prefix/registration before and after next, CallFunc, group not-found, CallFunc for group not-found) x 5 panic values (string, error, struct, genuine runtime.Error, http.ErrAbortHandler) x 3 containers (Router, Group+Add-ed router with its own recovery, Group.New router inheriting the group's option) x recovery on/off; after every fault a normal request and a 404 are checked; then a random sequence of 60 faulty/normal requests; " +
 			"non-trivial (distinct) = every (container, option, site, value) combination",
 		Floors: func(t string) map[string]int64 {
 			return map[string]int64{"recovered": 200, "passed_through": 200, "product_combinations_enumerated": 400, "random_sequence_fault": 100}
